@@ -33,7 +33,8 @@ CHECKS = {
         "text": "Proof, unbounded (Verus, nonlinear arithmetic): can_pack against its tail-fit oracle, and three lemmas over the split condition extracted verbatim from Mutations::send "
                 "(no message exceeds the size when each group fits; one message when everything fits; a chunk is never separated from an empty message). The same can_pack contract is cross-checked by Kani on the real function.",
         "design_ref": "DESIGN.md §4 U7, §5 C10",
-        "note": "Packing arithmetic only (plus bounded native/Kani runs of the chunk bookkeeping, labelled bounded in the evidence). Not covered: the loop in Mutations::send that applies the decision and assembles bytes (outside Verus' subset; Kani timeout), relationship-graph maintenance (petgraph), the client-side all-or-nothing effect.",
+        "note": "Packing arithmetic only (plus bounded native/Kani runs of the chunk bookkeeping, labelled bounded in the evidence). The loop in Mutations::send that applies the decision and assembles bytes (outside Verus' subset; Kani timeout), the graph index chosen in collect_changes and the relationship-graph maintenance (petgraph, observers) "
+                "are covered only by a BOUNDED native stand-in (u07s: real server and client app, 145 800 / 1 687 500 rounds over relationship shapes, sizes and maximum message sizes; labelled bounded, not counted as proved). Not covered: the client-side all-or-nothing effect.",
         "technique": "contract-based deductive verification: Verus requires/ensures on verbatim can_pack and on the split condition extracted from the real send(); Kani contract harness for counterexamples",
     },
     "C11": {
@@ -42,7 +43,8 @@ CHECKS = {
                 "exact map updates of set_mutation_tick/remove_entity, index counter wraps at 2^16; plus the emptiness test that decides whether a mutate message is sent.",
         "design_ref": "DESIGN.md §4 U4, U5, U7, §5 C11",
         "note": "Assumed: hashbrown map semantics, Tick::is_newer_than formula (validated by Kani against bevy). One stated mechanical normalisation (let-else-continue -> if-let) because Verus for-loops do not support continue. "
-                "Not covered: change detection in collect_changes, time-based cleanup (retain closure), register_mutate_message, the client acknowledging every message.",
+                "Change detection in collect_changes, send_messages, receive_acks and the client acknowledging every message are Bevy systems: covered only by a BOUNDED native stand-in (u05s: real server and client app, every operation sequence to depth 4/6 "
+                "with lost mutate messages and held, replayed and unknown acknowledgements; labelled bounded, not counted as proved). Not covered: time-based cleanup firing (cleanup_acks' timer), several clients, per-tick mutate-message tracking.",
         "technique": "contract-based deductive verification: Verus requires/ensures/loop invariants woven onto verbatim-extracted functions; Kani contract harnesses for the integer-level parts",
     },
     "C08": {
